@@ -219,6 +219,36 @@ Definition postprocess_item (c : conf) (v : view) (p : preds) (x : exts) : res o
             Ok (Out (if 0 <? kids then GotChildren else Completed) kids outl)
         else Ok (Out Completed 0 0).
 
+(* ---------------------------------------------------------------------------------------
+   internal/pkg/archiver/body.go ProcessBody, control flow only: which of its steps fail is an
+   input (the network, the temp file), mimetype.Detect always yields a MIME (its tree has a root).
+
+     SetReadDeadline error                       -> return err
+     if disableAssets && !domainsCrawl && maxHops == 0 { copyWithTimeout(Discard, ..) error -> return err }
+     copyWithTimeoutN(buffer, .., 2048) error    -> return err
+     u.SetMIMEType(mimetype.Detect(buffer.Bytes()))
+     if the MIME is text-like / pdf / mpegurl {
+         io.Copy(spooled, buffer) error          -> return err
+         copyWithTimeout(spooled, ..) error      -> return err
+         u.SetBody(spooled); return nil
+     } else { copyWithTimeout(Discard, ..) error -> return err }
+     return nil
+   Result: [None] = an error is returned (the archiver marks the item failed, it is never archived);
+   [Some (mime_set, body_set)] = nil is returned with these fields set. *)
+Record pb_env := PbEnv {
+  e_deadline_err : bool; e_discard_first : bool; e_discard_err : bool; e_copyn_err : bool;
+  e_keep : bool;           (* the sniffed MIME asks for post-processing *)
+  e_spool_err : bool; e_rest_err : bool; e_drop_err : bool }.
+
+Definition process_body (e : pb_env) : option (bool * bool) :=
+  if e_deadline_err e then None
+  else if e_discard_first e && e_discard_err e then None
+  else if e_copyn_err e then None
+  else (* SetMIMEType(Detect(..)) has happened from here on *)
+    if e_keep e then
+      (if e_spool_err e then None else if e_rest_err e then None else Some (true, true))
+    else (if e_drop_err e then None else Some (true, false)).
+
 (* What the archiver guarantees about an item it marks ItemArchived (archiver.go: SetResponse(resp)
    after a successful client.Do, ProcessBody sets the MIME before it returns nil, the request was
    built from the parsed URL): *)
